@@ -3,7 +3,8 @@
 Decides:
  A attempts on clones   ParseAdjacent::eval never evaluates the group on the caller's state: every attempt runs on a clone;
                    every Ok return leaves the caller's scope as it was at entry and so does every failure (shared with
-                   C05.R / C10.B).
+                   C05.R / C10.B); an adjacent command that succeeds - first try or retry - leaves the caller the scope it
+                   had before the adjacency narrowing (or the command's own `name..end` narrowing).
  W window          the symbolic scope of the state handed to the inner parser at each of its evaluations: the probe runs on
                    `start .. start + width` (the first item alone), the real attempt on `start .. end of the enclosing scope`,
                    trimmed to `adjacently_available_from(start)` exactly when the window contains items that are already
@@ -34,14 +35,14 @@ import scopes, c05, c08, c10, c01, consumers
 LEVEL = 'other'
 EXPLANATION = __doc__
 ASSUMPTIONS = ['the inner parser of a group consumes only through the State primitives (C05)']
-FLOORS = {'A.attempts': 4, 'W.window': 3, 'C.contiguous': 1, 'P.prefix': 2, 'S.adjacent_scope': 2, 'L.leftmost': 3, 'F.failfast': 1}
+FLOORS = {'A.attempts': 5, 'W.window': 3, 'C.contiguous': 1, 'P.prefix': 2, 'S.adjacent_scope': 2, 'L.leftmost': 3, 'F.failfast': 1}
 
 def run(ctx):
     cfgs = ['none', 'all'] if ctx.tier == 'quick' else ['none', 'all', 'ac', 'doc']
     ctx.preload(cfgs)
     for cfg in cfgs:
         fs = ctx.facts(cfg)
-        ctx.guard(c08.keep_only, ctx, lambda: c05.scope_restore(ctx, cfg, fs), lambda o: 'ParseAdjacent' in o.key, 'A.attempts')
+        ctx.guard(c08.keep_only, ctx, lambda: c05.scope_restore(ctx, cfg, fs), lambda o: 'ParseAdjacent' in o.key or 'adjacent-ok-scope' in o.key, 'A.attempts')
         ctx.guard(c08.keep_only, ctx, lambda: c10.best_effort(ctx, cfg, fs), lambda o: 'failure-scope' in o.key or 'failure-hands-back' in o.key, 'A.attempts')
         ctx.guard(window, ctx, cfg, fs)
         ctx.guard(contiguous, ctx, cfg, fs)
